@@ -90,11 +90,11 @@ type regDriver struct {
 	pos       int
 	viol      map[string]string // violation class -> detail
 	keyBad    string
-	consulted int  // stored factory consulted during the current op
-	failing   bool // between a failed creation callback and the return of the create method
+	consulted int               // stored factory consulted during the current op
+	failing   bool              // between a failed creation callback and the return of the create method
 	pubCells  map[string]bool   // cells that received a published instance
 	failDel   map[string]string // cells deleted from while failing -> history
-	curEarly  bool // earlyOK of the op being executed
+	curEarly  bool              // earlyOK of the op being executed
 	trans     int
 }
 
@@ -439,7 +439,7 @@ func newRegDriver(c *core.Ctx, T *types.Named, ops []regOp) *regDriver {
 
 func c04(c *core.Ctx, r *core.Report) {
 	ro := c.Roles()
-	r.Explanation = "C04 singleton cache protocol as typestate: every receiver field used as a map/set cell becomes an abstract cell for one tracked name; the bodies of AddSingletonFactory, AddSingleton, GetSingleton, GetSingletonOrCreateByFactory and IsSingletonCurrentlyInCreation are interpreted (SSA, symbolic tokens, cell primitives answered by the model, same-receiver helpers inlined, logging effect-free); every history a factory can issue for one name - lookups with/without early references, in-creation queries, create begin, add factory (<=1 per creation), create end ok/fail, early factory ok/fail - is explored to a fixpoint over (cell contents, monitor) with bounded tokens (2 creations, 3 early runs) and checked against observational assertions A1 one early reference / A2 in-creation mark / A3 published is final / A4 clean failure / A5 early-factory error. R1: every cell operation is keyed by the method's name parameter (makes the per-name projection sound). R3: the factory side of the protocol that the alphabet relies on - the accessor consults the cache (early references allowed) before creating, the early factory is registered exactly under the un-narrowed exposure condition and before any dependency is resolved, the creator's own lookup does not allow creating an early reference. Decides every single-name history; does not decide custom registries or the atomicity of sync.Map (C20)."
+	r.Explanation = "C04 singleton cache protocol as typestate: every receiver field used as a map/set cell becomes an abstract cell for one tracked name; the bodies of AddSingletonFactory, AddSingleton, GetSingleton, GetSingletonOrCreateByFactory and IsSingletonCurrentlyInCreation are interpreted (SSA, symbolic tokens, cell primitives answered by the model, same-receiver helpers inlined, logging effect-free); every history a factory can issue for one name - lookups with/without early references, in-creation queries, create begin, add factory (<=1 per creation), create end ok/fail, early factory ok/fail - is explored to a fixpoint over (cell contents, monitor) with bounded tokens (2 creations, 3 early runs) and checked against observational assertions A1 one early reference / A2 in-creation mark / A3 published is final / A4 clean failure (including: the clean-up of a failed attempt never deletes from a cell that receives published instances) / A5 early-factory error. R1: every cell operation is keyed by the method's name parameter (makes the per-name projection sound). R3: the factory side of the protocol that the alphabet relies on - the accessor consults the cache (early references allowed) before creating, the early factory is registered exactly under the un-narrowed exposure condition and before any dependency is resolved, the creator's own lookup does not allow creating an early reference. Decides every single-name history; does not decide custom registries or the atomicity of sync.Map (C20)."
 	r.Assumptions = []string{"sync2.Map / list.Set primitives behave as a map / set per key (delegation checked in C20.R4)", "operations on other names do not touch this name's cells (C04.R1)", "the factory issues at most one AddSingletonFactory per creation and does not re-enter creation of the same name while it is in creation (C02.R1/R3)"}
 	impls := c.Implementors(c.Iface("container", "SingletonComponentRegistry"))
 	r.Count("registry_impls", len(impls))
